@@ -4,16 +4,21 @@ import (
 	"context"
 	"fmt"
 	"sync"
+	"sync/atomic"
 )
 
 type inMemoryStore struct {
 	entries map[string][]byte
 	l       sync.Mutex
+	id      uint64
 }
+
+// lastInMemoryStoreID numbers the in-memory stores of this process.
+var lastInMemoryStoreID uint64
 
 // NewInMemoryStore provides a Persist that stores serialized nodes in a map, usually for testing.
 func NewInMemoryStore() Persist {
-	return &inMemoryStore{}
+	return &inMemoryStore{id: atomic.AddUint64(&lastInMemoryStoreID, 1)}
 }
 
 func (ims *inMemoryStore) Store(ctx context.Context, key string, value []byte) error {
@@ -37,6 +42,9 @@ func (ims *inMemoryStore) Load(ctx context.Context, key string) ([]byte, error) 
 	return value, nil
 }
 
+// NodeURLPrefix identifies this store among the stores of the process. (The
+// store's address would not do: it is reused once the store is collected,
+// while a shared NodeCache may still remember the nodes of the old one.)
 func (ims *inMemoryStore) NodeURLPrefix() string {
-	return fmt.Sprintf("%p", ims)
+	return fmt.Sprintf("mem:%d", ims.id)
 }
